@@ -129,14 +129,16 @@ package lua
 
 // RegisterLocalVar(name): the debug record of the new local is appended LAST (declaration order), it starts at the next
 // instruction to be emitted, and no earlier record changes; records stay ordered by start pc
-//@ define Inv_fcdbg(fc *funcContext) bool = fc != nil && fc.Proto != nil && fc.Code != nil && Inv_cs(fc.Code) && fc.Block != nil && Inv_vp(fc.Block.LocalVars) && offset(fc.Proto.DbgLocals) == 0 && (forall i int :: 0 <= i && i < len(fc.Proto.DbgLocals) ==> fc.Proto.DbgLocals[i] != nil && allocated(fc.Proto.DbgLocals[i]) && fc.Proto.DbgLocals[i].StartPc <= fc.Code.pc) && (forall i int, j int :: 0 <= i && i < j && j < len(fc.Proto.DbgLocals) ==> fc.Proto.DbgLocals[i].StartPc <= fc.Proto.DbgLocals[j].StartPc && fc.Proto.DbgLocals[i] != fc.Proto.DbgLocals[j])
+//@ define Inv_fcdbg(fc *funcContext) bool = fc != nil && fc.Proto != nil && fc.Code != nil && Inv_cs(fc.Code) && fc.Block != nil && Inv_vp(fc.Block.LocalVars) && offset(fc.Block.dbgLocals) == 0 && (forall q int :: 0 <= q && q < len(fc.Block.dbgLocals) ==> 0 <= fc.Block.dbgLocals[q] && fc.Block.dbgLocals[q] < len(fc.Proto.DbgLocals)) && offset(fc.Proto.DbgLocals) == 0 && (forall i int :: 0 <= i && i < len(fc.Proto.DbgLocals) ==> fc.Proto.DbgLocals[i] != nil && allocated(fc.Proto.DbgLocals[i]) && fc.Proto.DbgLocals[i].StartPc <= fc.Code.pc) && (forall i int, j int :: 0 <= i && i < j && j < len(fc.Proto.DbgLocals) ==> fc.Proto.DbgLocals[i].StartPc <= fc.Proto.DbgLocals[j].StartPc && fc.Proto.DbgLocals[i] != fc.Proto.DbgLocals[j])
 //@ func (*funcContext).RegisterLocalVar [C17]
 //@ requires Inv_fcdbg(fc)
 //@ raises when fc.regTop + 1 > maxRegisters
 //@ ensures  Inv_fcdbg(fc) && len(fc.Proto.DbgLocals) == old(len(fc.Proto.DbgLocals)) + 1 && fc.Proto.DbgLocals[old(len(fc.Proto.DbgLocals))].Name == name && fc.Proto.DbgLocals[old(len(fc.Proto.DbgLocals))].StartPc == old(fc.Code.pc) && fc.Proto.DbgLocals[old(len(fc.Proto.DbgLocals))].EndPc == 0
 //@ ensures  forall k int :: 0 <= k && k < old(len(fc.Proto.DbgLocals)) ==> fc.Proto.DbgLocals[k] == old(fc.Proto.DbgLocals[k]) && fc.Proto.DbgLocals[k].Name == old(fc.Proto.DbgLocals[k].Name) && fc.Proto.DbgLocals[k].StartPc == old(fc.Proto.DbgLocals[k].StartPc) && fc.Proto.DbgLocals[k].EndPc == old(fc.Proto.DbgLocals[k].EndPc)
 //@ ensures  result == old(len(fc.Block.LocalVars.names)) + fc.Block.LocalVars.offset && fc.regTop == old(fc.regTop) + 1
-//@ modifies fc.Proto.DbgLocals, fc.Proto.DbgLocals[*], fc.Block.LocalVars.names, fc.Block.LocalVars.names[*], fc.regTop
+// the block remembers WHICH record belongs to its new local (a register index is not a record index)
+//@ ensures  "block-remembers-its-record": len(fc.Block.dbgLocals) == old(len(fc.Block.dbgLocals)) + 1 && fc.Block.dbgLocals[old(len(fc.Block.dbgLocals))] == old(len(fc.Proto.DbgLocals)) && (forall q int :: 0 <= q && q < old(len(fc.Block.dbgLocals)) ==> fc.Block.dbgLocals[q] == old(fc.Block.dbgLocals[q]))
+//@ modifies fc.Proto.DbgLocals, fc.Proto.DbgLocals[*], fc.Block.LocalVars.names, fc.Block.LocalVars.names[*], fc.Block.dbgLocals, fc.Block.dbgLocals[*], fc.regTop
 
 //@ func (*varNamePool).List [C17]
 //@ requires Inv_vp(vp)
@@ -145,15 +147,17 @@ package lua
 //@ modifies nothing
 //@ loop 1 invariant 0 <= i && i <= len(vp.names) && len(local(result)) == len(vp.names) && offset(local(result)) == 0 && fresh(local(result)) && (forall k int :: 0 <= k && k < i ==> local(result)[k].Index == k + vp.offset && local(result)[k].Name == vp.names[k])
 
-// EndScope: every local of the block being left - and no other record - gets its end pc: the last instruction emitted
+// EndScope: exactly the records the block remembered for its locals - and no other record - get their end pc: the last
+// instruction emitted; names and start pcs are untouched
+//@ define inBlock(fc *funcContext, k int) bool = exists q int :: 0 <= q && q < len(fc.Block.dbgLocals) && fc.Block.dbgLocals[q] == k
 //@ func (*funcContext).EndScope [C17]
-//@ requires Inv_fcdbg(fc) && fc.Block.LocalVars.offset + len(fc.Block.LocalVars.names) <= len(fc.Proto.DbgLocals)
+//@ requires Inv_fcdbg(fc)
 //@ noraise
-//@ ensures  forall k int :: fc.Block.LocalVars.offset <= k && k < fc.Block.LocalVars.offset + len(fc.Block.LocalVars.names) ==> fc.Proto.DbgLocals[k].EndPc == fc.Code.pc - 1
-//@ ensures  forall k int :: 0 <= k && k < len(fc.Proto.DbgLocals) && !(fc.Block.LocalVars.offset <= k && k < fc.Block.LocalVars.offset + len(fc.Block.LocalVars.names)) ==> fc.Proto.DbgLocals[k].EndPc == old(fc.Proto.DbgLocals[k].EndPc)
+//@ ensures  "block-records-closed": forall q int :: 0 <= q && q < len(fc.Block.dbgLocals) ==> fc.Proto.DbgLocals[fc.Block.dbgLocals[q]].EndPc == fc.Code.pc - 1
+//@ ensures  "others-untouched": forall k int :: 0 <= k && k < len(fc.Proto.DbgLocals) && !old(inBlock(fc, k)) ==> fc.Proto.DbgLocals[k].EndPc == old(fc.Proto.DbgLocals[k].EndPc)
 //@ ensures  forall k int :: 0 <= k && k < len(fc.Proto.DbgLocals) ==> fc.Proto.DbgLocals[k].StartPc == old(fc.Proto.DbgLocals[k].StartPc) && fc.Proto.DbgLocals[k].Name == old(fc.Proto.DbgLocals[k].Name)
 //@ modifies type DbgLocalInfo.EndPc
-//@ loop 1 invariant 0 <= rangei && rangei <= len(fc.Block.LocalVars.names) && Inv_fcdbg(fc) && fc.Block.LocalVars.offset + len(fc.Block.LocalVars.names) <= len(fc.Proto.DbgLocals)
-//@ loop 1 invariant forall k int :: fc.Block.LocalVars.offset <= k && k < fc.Block.LocalVars.offset + rangei ==> fc.Proto.DbgLocals[k].EndPc == fc.Code.pc - 1
-//@ loop 1 invariant forall k int :: 0 <= k && k < len(fc.Proto.DbgLocals) && !(fc.Block.LocalVars.offset <= k && k < fc.Block.LocalVars.offset + rangei) ==> fc.Proto.DbgLocals[k].EndPc == old(fc.Proto.DbgLocals[k].EndPc)
+//@ loop 1 invariant 0 <= rangei && rangei <= len(fc.Block.dbgLocals) && Inv_fcdbg(fc)
+//@ loop 1 invariant forall q int :: 0 <= q && q < rangei ==> fc.Proto.DbgLocals[fc.Block.dbgLocals[q]].EndPc == fc.Code.pc - 1
+//@ loop 1 invariant forall k int :: 0 <= k && k < len(fc.Proto.DbgLocals) && !old(inBlock(fc, k)) ==> fc.Proto.DbgLocals[k].EndPc == old(fc.Proto.DbgLocals[k].EndPc)
 //@ loop 1 invariant forall k int :: 0 <= k && k < len(fc.Proto.DbgLocals) ==> fc.Proto.DbgLocals[k].StartPc == old(fc.Proto.DbgLocals[k].StartPc) && fc.Proto.DbgLocals[k].Name == old(fc.Proto.DbgLocals[k].Name)
